@@ -354,9 +354,12 @@ class Norm:
                 for c in e["chunks"]:
                     if c["type"] in (1, 2) and "itag" in c:
                         itag = self.tag(c["itag"])
+                peer = "B" if e["dir"] == "A" else "A"
+                sacks = [{"cum": _rel(c["cum"], self.itsn[peer]), "gaps": [[a, b] for a, b in c.get("gaps", [])]}
+                         for c in e["chunks"] if c["type"] == 3 and "cum" in c]
                 out.append({"e": "net", "i": i, "dir": e["dir"], "act": e["act"], "len": e["len"],
                             "crc": bool(e["crc_ok"]), "wf": bool(e["well_formed"]), "vtag": self.tag(e["vtag"]),
-                            "types": types, "hasinit": 1 in types, "itag": itag})
+                            "types": types, "hasinit": 1 in types, "itag": itag, "sacks": sacks})
         return out
 
 
